@@ -446,16 +446,25 @@ Definition DEFAULT_SAMPLE : text := [48;49].
 Definition LCM_THRESHOLD : Z := 100.
 
 (* BMSMap._write_notes *)
-Definition write_rows (tbl : list Q) (cfg : layout) (dflt : text) (c : wchart) : option (list wrow) :=
+(* the four tm.snaps(...) calls on hits, hold heads, hold tails and tempo points *)
+Record wsnaps := mkSn { sn_hits : list snap; sn_heads : list snap; sn_tails : list snap; sn_bpms : list snap }.
+Definition write_snaps (tbl : list Q) (c : wchart) : option wsnaps :=
   let tm := w_bpms c in
-  let sample_id (s : text) := match samples_rev (w_samples c) s with Some k => k | None => dflt end in
   match tm_snaps tbl tm (map h_off (w_hits c)),
         tm_snaps tbl tm (map ho_off (w_holds c)),
         tm_snaps tbl tm (map (fun h => Qred (ho_off h + ho_len h)%Q) (w_holds c)),
         tm_snaps tbl tm (map bo_off (w_bpms c)) with
-  | Some sh, Some shead, Some stail, Some sb =>
+  | Some sh, Some shead, Some stail, Some sb => Some (mkSn sh shead stail sb)
+  | _, _, _, _ => None
+  end.
+
+Definition write_rows_of (tbl : list Q) (cfg : layout) (dflt : text) (c : wchart) (sn : option wsnaps) : option (list wrow) :=
+  let tm := w_bpms c in
+  let sample_id (s : text) := match samples_rev (w_samples c) s with Some k => k | None => dflt end in
+  match sn with
+  | Some (mkSn sh shead stail sb) =>
       let metro := filter (fun b => negb (Qeq_bool (bo_met b) 4)) (w_bpms c) in
-      match tm_snaps tbl tm (map bo_off metro) with
+      match (match metro with [] => Some [] | _ => tm_snaps tbl tm (map bo_off metro) end) with
       | None => None
       | Some sm =>
           let hits := map (fun p => match layout_rev cfg (h_col (snd p)) with
@@ -480,8 +489,10 @@ Definition write_rows (tbl : list Q) (cfg : layout) (dflt : text) (c : wchart) :
           | _, _, _, _ => None                                         (* channel_map[...] : KeyError *)
           end
       end
-  | _, _, _, _ => None
+  | None => None
   end.
+Definition write_rows (tbl : list Q) (cfg : layout) (dflt : text) (c : wchart) : option (list wrow) :=
+  write_rows_of tbl cfg dflt c (write_snaps tbl c).
 
 Definition write_note_lines (rows : list wrow) : option (list text) :=
   let nd := new_dens LCM_THRESHOLD rows in
@@ -489,12 +500,13 @@ Definition write_note_lines (rows : list wrow) : option (list text) :=
   let sorted := sort_by slot_key_lt slots in
   all_some' (map line_of_group (group_runs sorted [])).
 
-(* BMSMap.write(note_channel_config, no_sample_default): the lines of the byte string split at "\r\n" *)
-Definition bms_write (tbl : list Q) (cfg : layout) (dflt : text) (c : wchart) : option (list wline) :=
+(* BMSMap.write(note_channel_config, no_sample_default): the lines of the byte string split at "\r\n".
+   [sn] is write_snaps tbl c (a parameter only so that a caller can share the computation). *)
+Definition bms_write_with (tbl : list Q) (cfg : layout) (dflt : text) (c : wchart) (sn : option wsnaps) : option (list wline) :=
   match write_header c with
   | None => None
   | Some hd =>
-      match write_rows tbl cfg dflt c with
+      match write_rows_of tbl cfg dflt c sn with
       | None => None
       | Some rows =>
           match write_note_lines rows with
@@ -503,3 +515,5 @@ Definition bms_write (tbl : list Q) (cfg : layout) (dflt : text) (c : wchart) : 
           end
       end
   end.
+Definition bms_write (tbl : list Q) (cfg : layout) (dflt : text) (c : wchart) : option (list wline) :=
+  bms_write_with tbl cfg dflt c (write_snaps tbl c).
